@@ -25,14 +25,7 @@ theorem INT_MAX_eq : INT_MAX = 2147483647 := by decide +kernel
 theorem LONG_MAX_eq : LONG_MAX = 9223372036854775807 := by decide +kernel
 theorem LONG_MIN_eq : LONG_MIN = -9223372036854775808 := by decide +kernel
 
-theorem toIntC_eq (l : Int) : toIntC l = (l + 2147483648) % 4294967296 - 2147483648 := by
-  unfold toIntC
-  have h1 : (2:Int) ^ (Gen.CcDirectives.INT_BITS - 1) = 2147483648 := by decide +kernel
-  have h2 : (2:Int) ^ Gen.CcDirectives.INT_BITS = 4294967296 := by decide +kernel
-  rw [h1, h2]
-
-theorem toIntC_id (l : Int) (h0 : -2147483648 ≤ l) (h1 : l ≤ 2147483647) : toIntC l = l := by
-  rw [toIntC_eq]; omega
+theorem INT_MIN_eq : INT_MIN = -2147483648 := by decide +kernel
 
 /-- LSB-first value -/
 def valRev : Bytes → Nat
@@ -143,7 +136,7 @@ theorem takeWhile_digits_append (ds rest : Bytes) (hd : ∀ d ∈ ds, isDigitC d
 
 theorem strtolC_digits (ds rest : Bytes) (hne : ds ≠ []) (hd : ∀ d ∈ ds, isDigitC d = true)
     (hr : ∀ c, rest.head? = some c → isDigitC c = false) :
-    strtolC (ds ++ rest) = if (decVal ds : Int) > LONG_MAX then LONG_MAX else (decVal ds : Int) := by
+    strtolC (ds ++ rest) = if (decVal ds : Int) > LONG_MAX then (true, LONG_MAX, true) else (true, (decVal ds : Int), false) := by
   cases ds with
   | nil => exact absurd rfl hne
   | cons d r =>
@@ -159,14 +152,13 @@ theorem strtolC_digits (ds rest : Bytes) (hne : ds ≠ []) (hd : ∀ d ∈ ds, i
     rw [this]
     simp
 
-theorem parseInt_snd (s : Bytes) : (parseInt s).2 = atoiC s := by
-  unfold parseInt; split <;> rfl
-
+/-- 1*DIGIT that fits `int`, followed by a non-digit or the end: the decimal value -/
 theorem parseInt_digits (ds rest : Bytes) (hne : ds ≠ []) (hd : ∀ d ∈ ds, isDigitC d = true)
     (hr : ∀ c, rest.head? = some c → isDigitC c = false) (hfit : (decVal ds : Int) ≤ INT_MAX) :
     parseInt (ds ++ rest) = (true, (decVal ds : Int)) := by
   have hs := strtolC_digits ds rest hne hd hr
   have hI := INT_MAX_eq
+  have hm := INT_MIN_eq
   have hL := LONG_MAX_eq
   have hle : ¬ ((decVal ds : Int) > LONG_MAX) := by omega
   rw [if_neg hle] at hs
@@ -174,51 +166,46 @@ theorem parseInt_digits (ds rest : Bytes) (hne : ds ≠ []) (hd : ∀ d ∈ ds, 
   | nil => exact absurd rfl hne
   | cons d r =>
     have hh : headIsDigit (d :: r ++ rest) = true := by simp [headIsDigit, hd d (List.mem_cons_self)]
-    unfold parseInt atoiC
-    rw [hs, toIntC_id _ (by omega) (by omega), hh]
-    simp
+    unfold parseInt
+    simp only [hs, hh]
+    have h1 : ¬ ((decVal (d :: r) : Int) < INT_MIN) := by omega
+    have h2 : ¬ ((decVal (d :: r) : Int) > INT_MAX) := by omega
+    simp [h1, h2]
 
-/-- `atoi` finds no number: after white space and an optional sign there is no digit -/
+/-- 1*DIGIT that does not fit `int`: failure -/
+theorem parseInt_digits_toobig (ds rest : Bytes) (hne : ds ≠ []) (hd : ∀ d ∈ ds, isDigitC d = true)
+    (hr : ∀ c, rest.head? = some c → isDigitC c = false) (hbig : INT_MAX < (decVal ds : Int)) :
+    parseInt (ds ++ rest) = (false, 0) := by
+  have hs := strtolC_digits ds rest hne hd hr
+  have hI := INT_MAX_eq
+  have hL := LONG_MAX_eq
+  unfold parseInt
+  rw [hs]
+  by_cases hgt : (decVal ds : Int) > LONG_MAX
+  · simp [hgt]
+  · have h2 : (decVal ds : Int) > INT_MAX := hbig
+    simp [hgt, h2]
+
+/-- `strtol` finds no number: after white space and an optional sign there is no digit -/
 def NoNumber (start : Bytes) : Prop := (skipSign (start.dropWhile isSpaceC)).takeWhile isDigitC = []
 
-theorem headIsDigit_of_noNumber (start : Bytes) (h : NoNumber start) : headIsDigit start = false := by
-  unfold NoNumber at h
-  cases start with
-  | nil => rfl
-  | cons c r =>
-    simp only [headIsDigit]
-    cases hc : isDigitC c with
-    | false => rfl
-    | true =>
-      exfalso
-      have hns := digit_not_space c hc
-      have h45 : c ≠ 45 := by intro hh; subst hh; revert hc; decide
-      have h43 : c ≠ 43 := by intro hh; subst hh; revert hc; decide
-      simp [hns, skipSign, h45, h43, hc] at h
-
 theorem parseInt_noNumber (start : Bytes) (h : NoNumber start) : parseInt start = (false, 0) := by
-  have hf := headIsDigit_of_noNumber start h
   unfold NoNumber at h
-  have hs : strtolC start = 0 := by unfold strtolC; simp only [h, ↓reduceIte]
-  unfold parseInt atoiC
-  rw [hs, toIntC_id 0 (by omega) (by omega), hf]
-  simp
+  have hs : strtolC start = (false, 0, false) := by unfold strtolC; simp only [h, ↓reduceIte]
+  unfold parseInt
+  simp [hs]
 
-/-- digits only, but the value does not fit `int` and its low 32 bits read as a negative `int` (or `strtol` saturates):
-the result is negative, which `HttpHdrCc::parse` treats as invalid -/
-theorem parseInt_digits_negative (ds rest : Bytes) (hne : ds ≠ []) (hd : ∀ d ∈ ds, isDigitC d = true)
-    (hr : ∀ c, rest.head? = some c → isDigitC c = false)
-    (hbig : 2147483648 ≤ decVal ds ∧ (decVal ds < 4294967296 ∨ 9223372036854775807 ≤ decVal ds)) :
-    (parseInt (ds ++ rest)).2 < 0 := by
-  have hs := strtolC_digits ds rest hne hd hr
-  have hL := LONG_MAX_eq
-  rw [parseInt_snd]
-  unfold atoiC
-  rw [hs, toIntC_eq]
-  split <;> omega
-
-/-- whatever the text, the value `atoi` delivers is an `int` -/
-theorem atoiC_range (s : Bytes) : -2147483648 ≤ atoiC s ∧ atoiC s ≤ 2147483647 := by
-  unfold atoiC; rw [toIntC_eq]; omega
+/-- whatever the text, a value that is delivered is an `int` -/
+theorem parseInt_range (s : Bytes) : -2147483648 ≤ (parseInt s).2 ∧ (parseInt s).2 ≤ 2147483647 := by
+  have hI := INT_MAX_eq
+  have hm := INT_MIN_eq
+  unfold parseInt
+  simp only
+  split
+  · simp
+  · rename_i hc
+    have h1 : ¬ ((strtolC s).2.1 < INT_MIN) := fun hh => hc (Or.inr (Or.inr (Or.inl hh)))
+    have h2 : ¬ ((strtolC s).2.1 > INT_MAX) := fun hh => hc (Or.inr (Or.inr (Or.inr hh)))
+    split <;> (simp only; omega)
 
 end SquidModel.Cc
